@@ -30,8 +30,9 @@ ASSUMPTIONS = ['decoders of vt/codec.py (export: Brants 1997; PTB brackets; '
                'decoration options are judged on the formats that label nodes '
                'through get_label (export, brackets, discobrackets); '
                'TIGER-XML and terminals must ignore them',
-               'boyd_split_numbering without boyd_split_marking: with or '
-               'without the asterisk accepted',
+               'boyd_split_numbering without boyd_split_marking: the number '
+               'without an asterisk (the options are independent, as the '
+               'option table of the writers says)',
                'excluded by construction: words with whitespace, #ddd words, '
                'parentheses in constituent labels, a parenthesis flanked by '
                'dashes inside a word (the name mapping is ambiguous there)']
@@ -88,7 +89,7 @@ def labels_ok(n, params):
         num = str(n.attrs.get('block_number'))
         mark = '*' if 'boyd_split_marking' in params else ''
         if 'boyd_split_numbering' in params:
-            out = [lab + mark + num, lab + '*' + num]
+            out = [lab + mark + num]
         else:
             out = [lab + mark]
     return out
